@@ -65,7 +65,7 @@ package failsafe
 //@   requires execWellFormed(e) && !held(e.mtx)
 //@   requires [C08.cancel_atomic] e.cancelFunc != nil && uf("ctxof", e.cancelFunc) == e.ctx
 //@   let was := ret(e.ctx.Err, 1) != nil
-//@   ensures [C08.cancel.records] !was ==> canceled(e.ctx) && cellof(e.canceledResult, *common.PolicyResult) == result
+//@   ensures [C08.cancel.records+C15.cancel.records_latest] !was ==> canceled(e.ctx) && cellof(e.canceledResult, *common.PolicyResult) == result
 //@   ensures [C08.cancel.last_result] !was && result != nil ==> e.lastResult == result.Result && e.lastError == result.Error
 //@   ensures [C08.cancel.first_wins] was ==> canceled(e.ctx)
 //@   modifies e.lastResult, e.lastError, *e.canceledResult, canceled(e.ctx), calls(e.ctx.Err), calls(e.cancelFunc)
@@ -130,6 +130,8 @@ package failsafe
 // copies share the counters, the lock and the cancel cell; the per-copy fields are taken under the lock
 //@ func (*execution).copy
 //@   requires execWellFormed(e) && !held(e.mtx)
+//@   atexit result.copied := true
+//@   ensures [C14.copy_is_private] result.copied
 //@   ensures [C17.copy] fresh(result) && result.mtx == e.mtx && result.attempts == e.attempts && result.retries == e.retries && result.hedges == e.hedges && result.executions == e.executions && result.canceledResult == e.canceledResult && result.ctx == e.ctx && result.cancelFunc == e.cancelFunc && result.isHedge == e.isHedge && result.startTime == e.startTime
 //@   modifies nothing
 
@@ -142,12 +144,12 @@ package failsafe
 //@ func (*execution).CopyWithResult
 //@   requires execWellFormed(e) && !held(e.mtx)
 //@   let c := asref(result_0, *execution)
-//@   atexit asref(result_0, *execution).copied := true
 //@   ensures [C14.copy_is_private] asref(result_0, *execution).copied
 //@   ensures [C17.copywithresult] typeis(result_0, *execution) && fresh(c) && c.attempts == e.attempts && c.executions == e.executions && c.retries == e.retries && c.hedges == e.hedges && c.ctx == e.ctx && (result != nil ==> c.lastResult == result.Result && c.lastError == result.Error)
 //@   modifies nothing
 
 //@ func (*execution).CopyForHedge
+//@   atexit asref(result, *execution).copied := false
 //@   requires execWellFormed(e) && !held(e.mtx) && e.attempts.v <= 1073741824 && e.hedges.v <= 1073741824
 //@   let c := asref(result, *execution)
 //@   ensures [C17.copyforhedge] typeis(result, *execution) && fresh(c) && c.isHedge && c.attempts == e.attempts && c.hedges == e.hedges && e.attempts.v == old(e.attempts.v) + 1 && e.hedges.v == old(e.hedges.v) + 1 && e.retries.v == old(e.retries.v)
@@ -155,6 +157,7 @@ package failsafe
 //@   modifies e.attempts.v, e.hedges.v
 
 //@ func (*execution).CopyForCancellable
+//@   atexit asref(result, *execution).copied := false
 //@   requires execWellFormed(e) && !held(e.mtx)
 //@   let c := asref(result, *execution)
 //@   ensures [C08.cancellable] typeis(result, *execution) && fresh(c) && c.cancelFunc != nil && uf("ctxof", c.cancelFunc) == c.ctx && c.canceledResult == e.canceledResult && c.mtx == e.mtx && c.attempts == e.attempts && c.isHedge == e.isHedge
@@ -208,11 +211,12 @@ package failsafe
 
 // the base function: fn exactly once, then the execution is counted, result wrapped as a success of "no policy"
 //@ func (*executor).execute$1
+//@   beforecall fn: assert [C14.user_callback_gets_copy] withExec ==> userCopy(callarg_0)
 //@   requires fn != nil && typeis(exec, *execution) && execWellFormed(asref(exec, *execution)) && !held(asref(exec, *execution).mtx) && asref(exec, *execution).executions.v <= 1073741824
 //@   ensures [C01.base.once] ncalls(fn) == 1
 //@   ensures [C01.base.result] fresh(result) && result.Result == ret(fn, 1, 0) && result.Error == ret(fn, 1, 1) && result.Done && result.Success && result.SuccessAll
 //@   ensures [C17.base.executions] asref(exec, *execution).executions.v == old(asref(exec, *execution).executions.v) + 1
-//@   ensures [C17.base.user_copy] withExec ==> arg(fn, 1, 0) != nil && typeis(reti_arg(fn, 1, 0), *execution) && fresh(asref(reti_arg(fn, 1, 0), *execution))
+//@   ensures [C17.base.user_copy+C14.user_fn_gets_copy] withExec ==> arg(fn, 1, 0) != nil && typeis(reti_arg(fn, 1, 0), *execution) && fresh(asref(reti_arg(fn, 1, 0), *execution))
 //@   ensures [C17.base.no_exec] !withExec ==> arg(fn, 1, 0) == nil
 //@   havoc
 //@   modifies asref(exec, *execution).executions.v, calls(fn)
